@@ -11,6 +11,7 @@ if subprocess.run("git -C /repo diff --quiet", shell=True).returncode != 0:
 claimed = {c['property_id'] for c in json.load(open('/verif/MANIFEST.json'))['checks']}
 res_path = os.path.join(root, 'RESULTS.json')
 results = json.load(open(res_path)) if os.path.exists(res_path) else {}
+touched = set()
 for name in sorted(os.listdir(root)):
     d = os.path.join(root, name)
     if not os.path.isdir(d) or flt not in name: continue
@@ -22,6 +23,7 @@ for name in sorted(os.listdir(root)):
     if subprocess.run(f"git -C /repo apply {d}/patch.diff", shell=True).returncode != 0:
         results[name] = {"property": prop, "detected": False, "note": "patch does not apply"}
         continue
+    touched.add(prop)
     try:
         p = subprocess.run(f"bin/gvc check {prop} --tier quick", cwd='/verif', shell=True, capture_output=True, text=True)
         viol = re.findall(r'^VIOLATION .*?obligation=(\S+)', p.stdout, re.M)
@@ -32,5 +34,5 @@ for name in sorted(os.listdir(root)):
     print(name, "DETECTED" if results[name]['detected'] else "MISSED", results[name].get('failed_obligations', [])[:3])
 json.dump(results, open(res_path, 'w'), indent=1)
 # the quick run above rewrote evidence on a mutated tree: restore evidence from the unchanged tree
-for prop in sorted({r['property'] for r in results.values() if r['property'] in claimed}):
+for prop in sorted(touched):
     subprocess.run(f"bin/gvc check {prop} --tier quick >/dev/null", cwd='/verif', shell=True)
